@@ -121,6 +121,18 @@ def check_C15(tier):
         want = [b + "[nop]" * max(0, padlen - sf.len_selfies(b)) for b in batch]
         if (k2, back) != ("ok", want):
             rep.violation("batch_flat_hot_to_selfies(batch_selfies_to_flat_hot(%r, pad=%d)) = %r" % (batch, padlen, back), {"batch": batch})
+        # a ragged vector at ANY position of the batch must raise (never a silently truncated string)
+        if flat and len(vocab) > 1:
+            pos = rng.randrange(len(flat))
+            for extra in ([0], [1], [0] * (len(vocab) - 1)):
+                bad_flat = [list(x) for x in flat]
+                bad_flat[pos] = bad_flat[pos] + extra
+                kr, br = call(sf.batch_flat_hot_to_selfies, bad_flat, dict(itos))
+                rep.traces += 1
+                if kr != "ValueError":
+                    rep.violation("batch_flat_hot_to_selfies accepts a ragged vector at position %d of %d: %s %r" % (
+                        pos, len(flat), kr, br), {"batch": batch, "position": pos, "extra": extra})
+                    break
         # the library must not hand out shared rows: mutate what was returned, encode again
         if flat and flat[0]:
             for row in flat:
